@@ -1608,6 +1608,11 @@ class Exec:
                 raise _Raise(st, ExcV('IndexError', node.lineno))
             return base[ci]
         if isinstance(base, str):
+            if isinstance(sl, ast.Slice):
+                lo = conc_int(self.eval(sl.lower, st)) if sl.lower else None
+                hi = conc_int(self.eval(sl.upper, st)) if sl.upper else None
+                if (sl.lower is None or lo is not None) and (sl.upper is None or hi is not None) and sl.step is None:
+                    return base[lo:hi]
             return '<strslice>'
         if isinstance(base, SeqV):
             i = self.eval(sl, st)
@@ -2007,6 +2012,10 @@ class Exec:
         kwargs = {}
         for k in node.keywords:
             if k.arg is None:
+                d = self.eval(k.value, st)          # f(**d) with a dict of concrete string keys
+                if isinstance(d, Ref) and isinstance(st.get(d), PyDict) and all(isinstance(x, str) for x in st.get(d).items):
+                    kwargs.update(st.get(d).items)
+                    continue
                 raise Unsupported('**kwargs at call')
             kwargs[k.arg] = self.eval(k.value, st)
         return self.call(f, args, kwargs, st, node)
